@@ -83,6 +83,10 @@ class SteadyDetonationReactionZone(ExactSolver):
     
             lamvec = tvec * (2.0 - tvec)
 
+            # The reaction is complete at t = 1
+
+            lamvec = np.where(tvec >= 1.0, 1.0, lamvec)
+
             # Correct reaction progress to be monotonic
 
             lamvec = np.maximum.accumulate(lamvec)
